@@ -197,8 +197,77 @@ def one(config: str, gname: str, snames: tuple, part: Part, fresh: bool = False)
     finally:
         w.close()
 
+# ---------------------------------------------------------------------------------------------
+# references taken INSIDE a running optimize (objective and callbacks hold objects, then the
+# trial is finished by optimize's own tell path)
+# ---------------------------------------------------------------------------------------------
+INSIDE_VARIANTS = ["ret-1.0", "ret-nan", "ret-None", "ret-'5'", "raise-ValueError", "prune-after-report", "ret-wrong-arity"]
+
+
+def inside_optimize(config: str, variant: str, part: Part) -> None:
+    env = Env(config)
+    try:
+        study = optuna.create_study(storage=env.storage, study_name="c20in", sampler=optuna.samplers.RandomSampler(seed=0))
+        st = study._storage
+        sid = study._study_id
+        held: list = []  # (where, getter name, object, digest at read time)
+
+        def grab(where: str, trial_id: int) -> None:
+            reads = {
+                "storage.get_trial": lambda: st.get_trial(trial_id),
+                "storage.get_all_trials(deepcopy=False)": lambda: st.get_all_trials(sid, deepcopy=False),
+                "study.get_trials(deepcopy=False)": lambda: study.get_trials(deepcopy=False),
+                "study._get_trials(use_cache=True)": lambda: study._get_trials(deepcopy=False, use_cache=True),
+                "study.trials": lambda: study.trials,
+                "storage.get_trial.system_attrs": lambda: st.get_trial(trial_id).system_attrs,
+                "storage.get_trial.user_attrs": lambda: st.get_trial(trial_id).user_attrs,
+                "storage.get_trial.intermediate_values": lambda: st.get_trial(trial_id).intermediate_values,
+            }
+            for name, fn in reads.items():
+                obj = fn()
+                held.append((where, name, obj, state_digest(obj)))
+
+        def objective(trial: optuna.Trial) -> Any:
+            grab("objective-start", trial._trial_id)
+            trial.suggest_float("x", 0, 1)
+            trial.set_user_attr("u", [1])
+            grab("objective-after-suggest", trial._trial_id)
+            if variant == "prune-after-report":
+                trial.report(0.5, 0)
+                grab("objective-after-report", trial._trial_id)
+                raise optuna.TrialPruned()
+            if variant == "raise-ValueError":
+                raise ValueError("boom")
+            return {"ret-1.0": 1.0, "ret-nan": float("nan"), "ret-None": None, "ret-'5'": "5", "ret-wrong-arity": [1.0, 2.0]}[variant]
+
+        def cb(study_: Any, ft: Any) -> None:
+            held.append(("callback-arg", "frozen trial passed to the callback", ft, state_digest(ft)))
+            grab("callback", ft._trial_id)
+
+        study.optimize(objective, n_trials=2, catch=(ValueError,), callbacks=[cb])
+        study.enqueue_trial({"x": 0.5})
+        study.optimize(objective, n_trials=1, catch=(ValueError,), callbacks=[cb])
+        part.add("evaluations")
+        part.add("transitions", len(held))
+        for where, name, obj, d0 in held:
+            if state_digest(obj) != d0:
+                part.violation(f"{config}|inside-optimize|{name}|read-at:{where}|changed-after:{variant}",
+                               {"config": config, "variant": variant, "getter": name, "read_at": where,
+                                "clause": "object read during optimize changed after optimize finished the trial"})
+                break
+    finally:
+        env.close()
+
+
 
 def task_fn(task: tuple) -> dict:
+    if task[0] == "inside":
+        backends.setup_determinism()
+        part = Part()
+        for v in INSIDE_VARIANTS:
+            inside_optimize(task[1], v, part)
+            part.add("states")
+        return part.out()
     config, gname, depth, fresh = task
     backends.setup_determinism()
     part = Part()
@@ -216,6 +285,9 @@ def task_fn(task: tuple) -> dict:
 def replay_case(raw: dict, part: Part) -> None:
     backends.setup_determinism()
     backends.sqlite_template()
+    if "variant" in raw:
+        inside_optimize(raw["config"], raw["variant"], part)
+        return
     one(raw["config"], raw["getter"], tuple(raw["setters"]), part, fresh=raw.get("world", "").startswith("RUNNING trial just asked"))
 
 
@@ -235,6 +307,9 @@ def run(tier: str, replay: str | None = None) -> int:
     only = os.environ.get("VF_CONFIGS")
     if only:
         tasks = [t for t in tasks if t[0] in only.split(",")]
+    for cfg in CONFIGS:
+        if not only or cfg in only.split(","):
+            tasks.append(("inside", cfg))
     pmap(ctx, task_fn, tasks)
     ctx.cov["traces_validated_against_impl"] = ctx.cov.get("evaluations", 0)
     ctx.assumptions += [
